@@ -860,7 +860,10 @@ Proof.
   rewrite Hres. rewrite (single_tile_level g l Hwf Hdec Hv Hsf).
   assert (Hr0 : res_at g l <= res_at g 0).
   { destruct (Z.eq_dec l 0) as [->|Hne]; [lia|]. pose proof (Hdec 0 l ltac:(lia) ltac:(lia) ltac:(lia)). lia. }
-  replace (res_at g 0 * shr_n g * tw g <? res_at g l * tw g * shr_d g) with false by (symmetry; apply Z.ltb_ge; nia).
+  assert (Hshr1 : res_at g l * tw g <= res_at g 0 * tw g) by nia.
+  assert (Hshr2 : res_at g l * tw g * shr_d g <= res_at g 0 * tw g * shr_n g).
+  { apply Z.mul_le_mono_nonneg; nia. }
+  replace (res_at g 0 * shr_n g * tw g <? res_at g l * tw g * shr_d g) with false by (symmetry; apply Z.ltb_ge; lia).
   rewrite (single_tile_affected g x y l Hwf Hv Hr10).
   unfold limit_tile in Hlim. rewrite Hv in Hlim. cbn [negb] in Hlim.
   destruct (grid_size g l) as [nx ny]. cbn [fst snd]. unfold tile_or_none.
@@ -876,8 +879,8 @@ Proof.
   { unfold wf, pos_res. cbn [gx0 gx1 gy0 gy1 tw th ress].
     split; [lia|]. split; [lia|]. split; [lia|]. split; [lia|]. intros r [<-|[<-|[<-|[]]]]; lia. }
   split.
-  { unfold decreasing_res, levels, res_at. cbn [ress length]. intros i j Hi Hij Hj.
+  { unfold decreasing_res. intros i j Hi Hij Hj. unfold levels in Hj. cbn in Hj.
     assert (Hc : (i = 0 /\ j = 1) \/ (i = 0 /\ j = 2) \/ (i = 1 /\ j = 2)) by lia.
-    destruct Hc as [[-> ->]|[[-> ->]|[-> ->]]]; cbn; lia. }
+    destruct Hc as [[-> ->]|[[-> ->]|[-> ->]]]; vm_compute; reflexivity. }
   split; vm_compute; reflexivity.
 Qed.
